@@ -134,6 +134,22 @@ PROPS = {
                dict(kind="flat", quick=8000, thorough=200000, corr=["vars"], oracle=[("vars", "svars")],
                     guards=["render", "toks"], nontrivial=flat_nontrivial)],
     ),
+    "C06": dict(
+        level="proof",
+        modules=["Exmex.Props.C07", "Exmex.Props.C14", "Exmex.Props.C02", "Exmex.Props.C02Deep"],
+        theorems=["Exmex.C14.evalNumbers_any_order", "Exmex.C02.compile_sound", "Exmex.C02.deep_compile_sound", "Exmex.C02.deep_new_sound"],
+        level_text=("Totality of the model is Lean's termination checker; absence of panic sites is proved for the evaluation core (any order, any size: C14), "
+                    "for flat and deep constant folding and DeepEx::new under the structural invariants; the token walker on canonical tokens (L6). "
+                    "The remaining entry points are covered by the correspondence run: exhaustive short strings over a 14-symbol alphabet, token soup, mutated texts, "
+                    "1000-token / depth-100 texts, every parsing entry point incl. f64, Val and statements under catch_unwind, follow-up calls on everything accepted; "
+                    "stack consumption is a run-time check (one call per child process on a 2 MiB thread)"),
+        rule="all strings up to length 4 (thorough: 5) over {a,1,.,+,-,*,s,m,(,),comma,{,},space} exhaustively; random strings, token soup with unicode/control characters, mutated well-formed texts, texts of ~1000 tokens nested up to 100 deep; 16 entry points x 4 depths x 4 nesting styles in isolated processes for stack use; non-trivial = text of at least 3 characters; distinct by request hash",
+        kinds=[dict(kind="crashx", quick=41371, thorough=579195, corr=["r", "fu"], oracle_const=[("r", "[oe]{3}"), ("fu", "[oe-]*"), ("x", "ok")],
+                    nontrivial=lambda req, A, B: len(req.split("\t")[3]) >= 6),
+               dict(kind="crash", quick=12000, thorough=400000, corr=["r", "fu"], oracle_const=[("r", "[oe]{3}"), ("fu", "[oe-]*"), ("x", "ok")],
+                    nontrivial=lambda req, A, B: len(req.split("\t")[3]) >= 6),
+               dict(kind="stack", quick=256, thorough=256, single=True, no_model=True, corr=[], oracle_const=[("r", "ok")], nontrivial=always)],
+    ),
     "C07": dict(
         level="proof",
         modules=["Exmex.Props.C07"],
